@@ -14,7 +14,7 @@ LEVEL = "exploration"
 RULE = ("random abstract programs (1-8 commands, 0-6 arguments; ints, decimals in every spelling, quoted strings with delimiters / "
         "quotes / escapes / non-ASCII, unquoted words, sentences, paths, URLs, lists nested <=3, tuples) x random renderings; plus "
         "single-token corruptions; distinct by (multiset of leaf value classes, layout features used, eol)")
-REQUIRED_COUNTERS = ["parses_compared", "corruptions_checked", "leaf_values_compared", "parser_reuse_cases"]
+REQUIRED_COUNTERS = ["parses_compared", "corruptions_checked", "leaf_values_compared", "parser_reuse_cases", "files_loaded_through_the_program"]
 ASSUMPTIONS = ["expected content of quoted strings = text after unescaping \\\\ \\\" \\' \\n \\t (as tests/test_parser.py fixes)",
                "expected unquoted text = the written words joined by their single blanks, trimmed",
                "don't-care: duplicate tuple keys, comments/newlines inside unquoted strings, bare True/False words, other backslash escapes"]
@@ -38,6 +38,10 @@ def cases(ctx):
             # error comes after complete commands)
             case["before"] = [rng.choice(REUSE_TEXTS + [text]) for _ in range(rng.randint(1, 3))]
         yield case
+    # the same comparison for whole command files loaded through Program.from_source (the way files are parsed in practice), over
+    # a user's own command library whose command names equal EEMS 2.0 names but for letter case
+    for i in range(ctx.n(300, 20000)):
+        yield {"kind": "viaprogram", "prog": _gen_user_program(rng), "rseed": rng.randrange(10 ** 9), "rawnl": rng.random() < 0.5, "style": rng.choice(["wild", "wild", "canon"])}
     for i in range(ctx.n(1200, 80000)):
         # corruption of well-behaved programs (quoted strings / numbers / identifier words only, so that the base text parses)
         prog = syntax.gen_program(rng, max_cmds=3, max_args=3, ustr_classes=["word"], rich=False)
@@ -48,6 +52,73 @@ def cases(ctx):
         c = syntax.corrupt(text, random.Random(rng.randrange(10 ** 9)))
         if c:
             yield {"kind": "corrupt", "edit": c[0], "text": c[1], "base": text}
+
+
+USER_NAMES = ["dif", "Dif", "union", "Union", "min", "Sum_", "sum", "not", "Not", "or", "read", "Read", "mean", "Copyfield", "xor"]
+ODD_STRINGS = ["first\n   \nlast", "  two\n\t\n  three", "a\n \n \nb", "line one\n    indented line two", "\n   \n", "x\n    "]
+
+
+def _gen_user_program(rng):
+    cmds = []
+    for i in range(rng.randint(1, 5)):
+        args = []
+        prev = [c["result"] for c in cmds]
+        for k in rng.sample(["V", "OutFileName", "NewFieldName", "A", "InFieldNames", "Anything"], rng.randint(0, 4)):
+            if k == "V":
+                v = syntax.gen_int(rng) if rng.random() < 0.5 else syntax.gen_float(rng)
+            elif k in ("OutFileName", "NewFieldName"):
+                v = syntax.gen_qstr(rng)
+                if rng.random() < 0.35:
+                    v = {"t": "qstr", "v": rng.choice(ODD_STRINGS), "q": rng.choice(['"', "'"])}      # whitespace-only lines inside a multi-line string
+            elif k == "A":
+                if not prev:
+                    continue
+                v = {"t": "ustr", "v": rng.choice(prev), "cls": "word"}
+            elif k == "InFieldNames":
+                v = {"t": "list", "items": [{"t": "ustr", "v": rng.choice(prev), "cls": "word"} for _ in range(rng.randint(0, 3))] if prev else [], "trail": False}
+            else:
+                v = {"t": "list", "items": [syntax.gen_qstr(rng) if rng.random() < 0.6 else syntax.gen_int(rng) for _ in range(rng.randint(0, 3))], "trail": False}
+            args.append({"name": k, "value": v})
+        cmds.append({"result": "U%d" % i, "command": rng.choice(USER_NAMES), "args": args, "trail": False})
+    return {"commands": cmds}
+
+
+def run_viaprogram(ctx, case):
+    from mpilot.program import Program
+    from mpilot.arguments import Argument
+    prog = case["prog"]
+    text = syntax.render(prog, random.Random(case["rseed"]), case["style"], raw_newline_strings=case["rawnl"])
+    ctx.count("files_loaded_through_the_program")
+    ctx.feature(("viaprogram", tuple(sorted(set(c["command"] for c in prog["commands"])))[:4], case["rawnl"], case["style"]))
+    try:
+        p = Program.from_source(text, libraries=("usercmds",))
+    except Exception as e:
+        ctx.fail("via-program:well-formed-file-rejected:%s" % type(e).__name__, {"text": text[:600], "error": str(e)[:200]})
+        return
+
+    def plain(v):
+        if isinstance(v, Argument):
+            v = v.value
+        if isinstance(v, list):
+            return [plain(x) for x in v]
+        return v
+    got = list(p.commands.items())
+    if [n for n, _ in got] != [c["result"] for c in prog["commands"]]:
+        ctx.fail("via-program:commands-differ", {"got": [n for n, _ in got], "want": [c["result"] for c in prog["commands"]], "text": text[:600]})
+        return
+    for c, (name, cmd) in zip(prog["commands"], got):
+        ctx.count("leaf_values_compared", len(c["args"]))
+        if type(cmd).__name__ != c["command"] or type(cmd).__module__ != "usercmds":
+            ctx.fail("via-program:command-of-the-user-library-replaced", {"written": c["command"], "loaded": "%s.%s" % (type(cmd).__module__, type(cmd).__name__), "text": text[:600]})
+            return
+        if [a.name for a in cmd.arguments] != [a["name"] for a in c["args"]]:
+            ctx.fail("via-program:argument-names-differ", {"command": c["command"], "got": [a.name for a in cmd.arguments], "want": [a["name"] for a in c["args"]], "text": text[:600]})
+            return
+        for a, arg in zip(c["args"], cmd.arguments):
+            want = syntax.expect_value(a["value"])
+            if not syntax.same_value(plain(arg.value), want):
+                ctx.fail("via-program:value-differs:%s" % syntax.value_feature(a["value"]), {"argument": a["name"], "got": repr(plain(arg.value))[:200], "want": repr(want)[:200], "text": text[:600]})
+                return
 
 
 def _clean(x):
@@ -154,6 +225,8 @@ def _count_leaves(prog):
 
 
 def run_case(ctx, case):
+    if case["kind"] == "viaprogram":
+        return run_viaprogram(ctx, case)
     text = case["text"]
     if case["kind"] == "corrupt":
         ctx.count("corruptions_checked")
